@@ -3,7 +3,8 @@
 T: coq/gen/MapGen.v, coq/gen/ListGen.v regenerated from std/map.glu, std/list.glu with gluon's own
    parser (harness/src/tr/glu_std.rs).
 Proofs: coq/theories/Props/C19.v (over the regenerated definitions).
-C: one correspondence per family (map, list, array-string, derive, json): Gluon driver functions
+C: one correspondence per family (map, list, array-string, derive, json = std.json.Value level incl.
+   floats, re-spelled texts, typed derive(Serialize, Deserialize) round trips): Gluon driver functions
    called on a long-lived VM vs the extracted models, and the implementation vs an independent
    Rust-std oracle (BTreeMap, slice::sort, str, serde_json).  The oracle comparison is what yields
    a concrete failing input when a regenerated model follows an edited source.
@@ -98,7 +99,8 @@ def report(ctx, res):
         ctx.violation(key, "std %s: %s (%d such cases)" % (fam, what[:400], len(items)),
                       case={"line": line, "family": fam}, expected="the property holds", observed=what[:400])
     # implementation vs independent oracle: the implementation breaks the mathematical definition
-    od = res["oracle_diffs"]
+    pf_lines = set(d[2] for d in res["property_failures"])
+    od = [d for d in res["oracle_diffs"] if d[1] not in pf_lines]
     if od:
         by_fam = {}
         for d in od:
@@ -116,7 +118,7 @@ def report(ctx, res):
     # model vs implementation where the oracle sides with the model (or there is no oracle):
     # the model has the property (theorems), so the implementation's observable is wrong
     for (fam, line, m, im, o) in res["model_diffs"][:50]:
-        if any(line == d[1] for d in od):
+        if any(line == d[1] for d in od) or line in pf_lines:
             continue
         if o == "-" or o == m:
             found += 1
@@ -147,9 +149,12 @@ def run(ctx):
         if not ran:
             ctx.obligations.append(common.Obligation("correspondence:" + fam, "correspondence", False, "could not run"))
             continue
-        md = [d for d in res["model_diffs"] if d[0] == fam]
-        od = [d for d in res["oracle_diffs"] if d[0] == fam]
         pf = [d for d in res["property_failures"] if d[0] == fam]
+        pf_lines = set(d[2] for d in pf)
+        # a case on which the implementation fails the property itself is reported (and keyed) as
+        # such; it necessarily differs from the model, which has the property
+        md = [d for d in res["model_diffs"] if d[0] == fam and d[1] not in pf_lines]
+        od = [d for d in res["oracle_diffs"] if d[0] == fam and d[1] not in pf_lines]
         n = res["fam_counts"].get(fam, 0)
         # the correspondence obligation is about model = implementation (= independent oracle);
         # property failures are reported as violations of their own (known findings are filtered there)
@@ -163,14 +168,17 @@ def run(ctx):
                           obligation="correspondence:" + fam, no_input=True)
     ctx.trusted.append("translator harness/src/tr/glu_std.rs (gluon_parser AST -> Gallina): name mapping Cons/Nil, Some/None, LT/EQ/GT, True/False; "
                        "`<>` at List resolves to std/list.glu's local semigroup.append; `compare` is the [Ord _] implicit")
-    ctx.trusted.append("harness/src/bin/c19/{main,strs,derive,json}.rs: generators, Gluon driver functions, value canonicaliser, Rust-std oracles; coq/extract/c19/driver.ml decimal/byte conversions")
+    ctx.trusted.append("harness/src/bin/c19/{main,strs,derive,json,jtyped}.rs: generators, Gluon driver functions, value canonicaliser, Rust-std oracles; coq/extract/c19/driver.ml decimal/byte conversions")
     ctx.assumptions.append("`compare` is a total order up to its own equivalence (ord_ok): explicit premise of the map/sort theorems; the tie instantiates it with Int")
+    ctx.assumptions.append("JSON floats: the Coq model carries a float as its opaque decimal token (number <-> text conversion not modelled); "
+                           "bit-exact float round trips, re-spelled texts and typed (de)serializers are tied by serde_json + the round-trip property evaluated on the implementation")
     ctx.assumptions.append("implicit-argument resolution and the evaluation of the translated functions by the real VM are covered by the correspondence, not by the translator")
     if ran:
         found = report(ctx, res)
         # model and implementation disagree, the independent oracle sides with the implementation:
         # the hand-written part of the model (or the glue) is wrong - a broken tie, not an input
-        model_wrong = [d for d in res["model_diffs"] if d[4] == d[3] and d[4] != "-"]
+        pf_lines = set(d[2] for d in res["property_failures"])
+        model_wrong = [d for d in res["model_diffs"] if d[4] == d[3] and d[4] != "-" and d[1] not in pf_lines]
         for (fam, line, m, im, o) in model_wrong[:3]:
             ctx.violation("obligation:correspondence:" + fam, "model and implementation disagree on `%s` and the Rust-std oracle sides with the implementation: the model is wrong" % line[:200],
                           obligation="correspondence:" + fam, no_input=True, extra={"case": line, "model": m, "impl": im})
